@@ -497,12 +497,14 @@ class WiredNetworkInterface(NetworkInterface, ABC):
         """
         if not self.enabled:
             return False
+        # stamp the frame first: the timestamp is part of the frame's size, and the size checked against the link's
+        # capacity must be the size that is then loaded onto the link
+        frame.set_sent_timestamp()
         if not self._connected_link.can_transmit_frame(frame):
             # Drop frame for now. Queuing will happen here (probably) if it's done in the future.
             self._connected_node.sys_log.info(f"{self}: Frame dropped as Link is at capacity")
             return False
         super().send_frame(frame)
-        frame.set_sent_timestamp()
         self.pcap.capture_outbound(frame)
         self._connected_link.transmit_frame(sender_nic=self, frame=frame)
         return True
